@@ -748,6 +748,17 @@ func makeReplay(o *runOpts, P *Prog, r *FuncResult, ob *Obligation) *ReplayFile 
 		rp.Verdict = "replay-unavailable"
 		return rp
 	}
+	if panicked {
+		// inputs the harness could not build (interface and function values become nil) make a panic of the
+		// replay meaningless: it may come from the harness, not from the code
+		for _, in := range inputs {
+			if cvHasUnsupported(in) {
+				rp.Verdict = "replay-unavailable"
+				rp.TestOutput += "\nreplay panicked, but some inputs could not be constructed (interface/function values): not counted as a reproduction\n"
+				return rp
+			}
+		}
+	}
 	switch {
 	case ob.Kind == "post":
 		if panicked {
@@ -856,4 +867,24 @@ func (vc *VC) outsideClass(ob *Obligation, class string, o *runOpts) string {
 	defer os.RemoveAll(dir)
 	r := runSolvers(script, dir, "class", o.timeout, false, "unsat")
 	return r.result
+}
+
+func cvHasUnsupported(c *CV) bool {
+	if c == nil {
+		return false
+	}
+	if c.Kind == "unsupported" {
+		return true
+	}
+	for _, e := range c.Elems {
+		if cvHasUnsupported(e) {
+			return true
+		}
+	}
+	for _, e := range c.Fields {
+		if cvHasUnsupported(e) {
+			return true
+		}
+	}
+	return cvHasUnsupported(c.Ptr)
 }
